@@ -117,8 +117,11 @@ type C05Scenario struct {
 	Entries []C05Entry `json:"entries"`
 	// Unsolicited: the hostile sender also sends data for indices nobody
 	// requested (block references + the checksum of an outside file).
-	Unsolicited bool      `json:"unsolicited,omitempty"`
-	Tr          Transport `json:"tr"`
+	Unsolicited bool `json:"unsolicited,omitempty"`
+	// Withhold: the hostile sender never answers requests for the name "trio"
+	// (what was created in its place stays until the end of the session)
+	Withhold bool      `json:"withhold,omitempty"`
+	Tr       Transport `json:"tr"`
 }
 
 type c05 struct{}
@@ -246,9 +249,10 @@ func (c05) Generate(seed uint64, tier string, index int) any {
 		// the same name several times with different types: whatever is
 		// remembered about the first (a directory to re-chmod at the end, a file
 		// to receive) is later applied to what the last one made of the path
-		kinds := [][]string{{"d", "f", "l"}, {"d", "l"}, {"f", "l"}, {"l", "d"}, {"d", "l", "f"}, {"l", "f"}}[g.R.Intn(6)]
+		kinds := [][]string{{"d", "f", "l"}, {"d", "f", "l"}, {"d", "l"}, {"f", "l"}, {"l", "d"}, {"d", "l", "f"}, {"l", "f"}}[g.R.Intn(7)]
+		sc.Withhold = g.R.Bool() // the sender never delivers the data of the file among them
 		for _, k := range kinds {
-			e := C05Entry{Name: "trio", Type: k, Perm: []uint32{0o555, 0o700, 0o777, 0o644}[g.R.Intn(4)]}
+			e := C05Entry{Name: "trio", Type: k, Perm: []uint32{0o555, 0o500, 0o555, 0o700, 0o777, 0o644}[g.R.Intn(6)]}
 			switch k {
 			case "l":
 				e.Link = fstree.Name([]string{"../sibling_dir", "%A", "../sibling_file", ".."}[g.R.Intn(4)])
@@ -393,6 +397,10 @@ func (c05) Run(t *testing.T, scenario any, job *Job, res *Result) {
 		}
 		return out
 	}
+	var withhold func(e *refproto.Entry) bool
+	if sc.Withhold {
+		withhold = func(e *refproto.Entry) bool { return e.Name == "trio" }
+	}
 	var unsol func([]refproto.Entry, int32) []refproto.Unsol
 	if sc.Unsolicited {
 		unsol = unsolicited
@@ -420,7 +428,7 @@ func (c05) Run(t *testing.T, scenario any, job *Job, res *Result) {
 			},
 			Ref: func(w *refproto.Wire) error {
 				var err error
-				sr, err = refproto.Send(w, refproto.SendOpts{Server: true, Daemon: true, Seed: 31337, Entries: entries, Data: data, OptsFromArgs: true, Unsolicited: unsol, Users: refproto.IDList{{ID: 12345, Name: "nobody"}}, Groups: refproto.IDList{{ID: 23456, Name: "nogroup"}}})
+				sr, err = refproto.Send(w, refproto.SendOpts{Server: true, Daemon: true, Seed: 31337, Entries: entries, Data: data, OptsFromArgs: true, Unsolicited: unsol, Withhold: withhold, Users: refproto.IDList{{ID: 12345, Name: "nobody"}}, Groups: refproto.IDList{{ID: 23456, Name: "nogroup"}}})
 				if sr != nil {
 					checkReq(sr.Requests, sr.Sorted, sr.Seed)
 				}
@@ -447,7 +455,7 @@ func (c05) Run(t *testing.T, scenario any, job *Job, res *Result) {
 			},
 			Ref: func(w *refproto.Wire) error {
 				var err error
-				sr, err = refproto.Send(w, refproto.SendOpts{Daemon: true, Module: "mod", Args: args, List: lo, SendFilterList: del, Entries: entries, Data: data, Unsolicited: unsol,
+				sr, err = refproto.Send(w, refproto.SendOpts{Daemon: true, Module: "mod", Args: args, List: lo, SendFilterList: del, Entries: entries, Data: data, Unsolicited: unsol, Withhold: withhold,
 					Users: refproto.IDList{{ID: 12345, Name: "nobody"}}, Groups: refproto.IDList{{ID: 23456, Name: "nogroup"}}})
 				if sr != nil {
 					checkReq(sr.Requests, sr.Sorted, sr.Seed)
